@@ -107,7 +107,34 @@ namespace avel_verif_driver {
         Gat<V, decltype(idx), V::width>::go(v, idx, buf, buf);
     }
 
+    template<avel::Cache_level L>
+    void prefetches(const void* p, const int* pi, const double* pd, std::size_t n) {
+        avel::prefetch_read<L>(p, n); avel::prefetch_write<L>(p, n);
+        avel::prefetch_read<L, int>(pi, n); avel::prefetch_write<L, int>(pi, n);
+        avel::prefetch_read<L, double>(pd, n); avel::prefetch_write<L, double>(pd, n);
+    }
+
+    template<class T, std::size_t A>
+    void allocator(std::size_t n) {
+        avel::Aligned_allocator<T, A> a;
+        T* p = a.allocate(n);
+        T* q = a.allocate(n, nullptr);
+        a.deallocate(p, n); a.deallocate(q, n);
+        (void)(a == a); (void)(a != a); (void)a.max_size();
+    }
+
+    struct alignas(16) Block16 { unsigned char b[16]; };
+    struct alignas(64) Block64 { unsigned char b[64]; };
+
     void roots() {
+        prefetches<avel::L1_CACHE>(nullptr, nullptr, nullptr, 0);
+        prefetches<avel::L2_CACHE>(nullptr, nullptr, nullptr, 0);
+        prefetches<avel::L3_CACHE>(nullptr, nullptr, nullptr, 0);
+        allocator<char, 1>(0); allocator<char, 16>(0); allocator<char, 64>(0); allocator<char, 4096>(0);
+        allocator<std::uint16_t, 2>(0); allocator<std::uint16_t, 32>(0);
+        allocator<std::uint32_t, 4>(0); allocator<std::uint32_t, 64>(0);
+        allocator<double, 8>(0); allocator<double, 128>(0);
+
         int_vector<avel::vec1x8u, 8>();   int_vector<avel::vec1x8i, 8>();
         int_vector<avel::vec1x16u, 16>(); int_vector<avel::vec1x16i, 16>();
         int_vector<avel::vec1x32u, 32>(); int_vector<avel::vec1x32i, 32>();
